@@ -63,15 +63,6 @@ def canonOpt : Option Bytes → String
   | some b => canon b
   | none => "nullopt"
 
-/-- number of bytes a `canon` string stands for (shape check at the excluded point key = 0) -/
-def canonLen (s : String) : Option Nat :=
-  if s == "-" then some 0
-  else if s.startsWith "len:" then
-    match s.splitOn ":" with
-    | _ :: n :: _ => n.toNat?
-    | _ => none
-  else (bytesOfHex s).map (·.length)
-
 def verdict (clause : String) (expect : String) (impl : Option String) : String :=
   match impl with
   | none => "ok"
@@ -122,30 +113,24 @@ def step (_ : Unit) (tok : List String) (_line : String) (impl : Option String) 
   | ["mgr_enc", key, id, pt] =>
     match fixedArg 32 key, fixedArg 32 id, bytesArg pt with
     | some key, some id, some pt =>
+      if ChaCha20.allZero key then
+        -- excluded point: the key actually used is random and not observable through the static call;
+        -- the property prescribes nothing here, the implementation's line is echoed and not judged
+        ((), impl.getD "zero-key", "ok")
+      else
       -- the random nonce is the implementation's choice (any 12 bytes are legal)
       match impl, (implTok.head?.bind (fixedArg 12)) with
       | some _, none => ((), "?", "viol:manager-encrypt:no 12-byte nonce in the output")
       | _, nonce? =>
         let nonce := nonce?.getD (zeros 12)
-        if ChaCha20.allZero key then
-          -- excluded point: the key actually used is random and not observable through the static call
-          match impl with
-          | none => ((), "zero-key", "ok")
-          | some i =>
-            let shapeOk := implTok.length == 3 && ((implTok.getD 1 "").isEmpty == false) && canonLen (implTok.getD 1 "") == some pt.length
-            ((), i, if shapeOk then "ok" else "viol:manager-zero-key-shape")
-        else
-          let m := ChaCha20.encrypt_with_key key id pt nonce (zeros 32)
-          let line := fun (d : Bytes) => s!"{hexOfBytes nonce} {canon d} enc=1"
-          ((), line m.data, verdict "manager-encrypt" (line (Spec.chacha20 key nonce (specCounter id) pt)) impl)
+        let m := ChaCha20.encrypt_with_key key id pt nonce (zeros 32)
+        let line := fun (d : Bytes) => s!"{hexOfBytes nonce} {canon d} enc=1"
+        ((), line m.data, verdict "manager-encrypt" (line (Spec.chacha20 key nonce (specCounter id) pt)) impl)
     | _, _, _ => badArgs
   | ["mgr_dec", key, id, nonce, ct] =>
     match fixedArg 32 key, fixedArg 32 id, fixedArg 12 nonce, bytesArg ct with
     | some key, some id, some nonce, some ct =>
-      if ChaCha20.allZero key then
-        match impl with
-        | none => ((), "zero-key", "ok")
-        | some i => ((), i, if canonLen i == some ct.length then "ok" else "viol:manager-zero-key-shape")
+      if ChaCha20.allZero key then ((), impl.getD "zero-key", "ok")    -- excluded point, see mgr_enc
       else
         ((), canonOpt (ChaCha20.decrypt_with_key key id ct nonce (zeros 32)),
           verdict "manager-decrypt" (canon (Spec.chacha20 key nonce (specCounter id) ct)) impl)
@@ -153,29 +138,28 @@ def step (_ : Unit) (tok : List String) (_line : String) (impl : Option String) 
   | ["mgr_rt", key, id, pt] =>
     match fixedArg 32 key, fixedArg 32 id, bytesArg pt with
     | some key, some id, some pt =>
+      if ChaCha20.allZero key then ((), impl.getD "zero-key", "ok")    -- excluded point, see mgr_enc
+      else
       match impl, (implTok.head?.bind (fixedArg 12)) with
       | some _, none => ((), "?", "viol:manager-roundtrip:no 12-byte nonce in the output")
       | _, nonce? =>
         let nonce := nonce?.getD (zeros 12)
-        if ChaCha20.allZero key then
-          match impl with
-          | none => ((), "zero-key", "ok")
-          | some i =>
-            let shapeOk := implTok.length == 3 && canonLen (implTok.getD 1 "") == some pt.length
-              && canonLen (implTok.getD 2 "") == some pt.length
-            ((), i, if shapeOk then "ok" else "viol:manager-zero-key-shape")
-        else
-          let m := ChaCha20.encrypt_with_key key id pt nonce (zeros 32)
-          let back := ChaCha20.decrypt_with_key key id m.data m.nonce (zeros 32)
-          let expect := s!"{hexOfBytes nonce} {canon (Spec.chacha20 key nonce (specCounter id) pt)} {canon pt}"
-          ((), s!"{hexOfBytes nonce} {canon m.data} {canonOpt back}", verdict "manager-roundtrip" expect impl)
+        let m := ChaCha20.encrypt_with_key key id pt nonce (zeros 32)
+        let back := ChaCha20.decrypt_with_key key id m.data m.nonce (zeros 32)
+        let expect := s!"{hexOfBytes nonce} {canon (Spec.chacha20 key nonce (specCounter id) pt)} {canon pt}"
+        ((), s!"{hexOfBytes nonce} {canon m.data} {canonOpt back}", verdict "manager-roundtrip" expect impl)
     | _, _, _ => badArgs
   | ["mgr_obj", key, id, pt] =>
     match fixedArg 32 key, fixedArg 32 id, bytesArg pt with
     | some key, some id, some pt =>
+      let zeroKey := ChaCha20.allZero key
       match impl, (implTok.head?.bind (fixedArg 32)), ((implTok.drop 1).head?.bind (fixedArg 12)) with
-      | some _, none, _ => ((), "?", "viol:manager-object:no key_ in the output")
-      | some _, _, none => ((), "?", "viol:manager-object:no 12-byte nonce in the output")
+      | some i, none, _ =>
+        -- at the excluded point (all-zero key) the property prescribes nothing: an answer of another shape
+        -- (say, a refusal) is echoed, not judged
+        if zeroKey then ((), i, "ok") else ((), "?", "viol:manager-object:no key_ in the output")
+      | some i, _, none =>
+        if zeroKey then ((), i, "ok") else ((), "?", "viol:manager-object:no 12-byte nonce in the output")
       | _, rk?, nonce? =>
         -- hints: the random key the constructor may have drawn, and the random nonce
         let rk := rk?.getD (zeros 32)
@@ -186,9 +170,9 @@ def step (_ : Unit) (tok : List String) (_line : String) (impl : Option String) 
         let out := s!"{hexOfBytes key_} {hexOfBytes nonce} {canon m.data} {canonOpt back}"
         -- specification: a non-zero key is used as given; whatever key the object holds, the data is
         -- RFC 8439 under that key and the same object decrypts to the plaintext
-        let usedKey := if ChaCha20.allZero key then rk else key
+        let usedKey := if zeroKey then rk else key
         let expect := s!"{hexOfBytes usedKey} {hexOfBytes nonce} {canon (Spec.chacha20 usedKey nonce (specCounter id) pt)} {canon pt}"
-        ((), out, verdict (if ChaCha20.allZero key then "manager-zero-key" else "manager-object") expect impl)
+        ((), out, verdict "manager-object" expect impl)
     | _, _, _ => badArgs
   | _ => ((), "bad-op", "ok")
 
